@@ -523,7 +523,20 @@ func stressInput(n int) (osm.Relations, *stressDS) {
 			ns = append(ns, osm.WayNode{ID: osm.NodeID(1000 + 4*i + k%4), Version: 1, Lat: pt[0], Lon: pt[1]})
 		}
 		wc := t0
-		d.ways[id] = osm.Ways{{ID: id, Version: 1, Visible: true, ChangesetID: 3, Timestamp: t0, Committed: &wc, Nodes: ns}}
+		// the way is an ANNOTATED way as annotate.Ways leaves it: 15 updates ordered by (index, time,
+		// version), not in time order across indexes (index 0 changed last), index 2 with three
+		// versions in the same second; the coordinates do not move, so the ring keeps its shape
+		var ups osm.Updates
+		for idx := 0; idx < 5; idx++ {
+			for v := 0; v < 3; v++ {
+				ut := t0.Add(time.Duration(10*(5-idx)+v) * time.Minute)
+				if idx == 2 {
+					ut = t0.Add(25 * time.Minute)
+				}
+				ups = append(ups, osm.Update{Index: idx, Version: 2 + v, ChangesetID: osm.ChangesetID(20 + v), Timestamp: ut, Lat: ns[idx].Lat, Lon: ns[idx].Lon})
+			}
+		}
+		d.ways[id] = osm.Ways{{ID: id, Version: 1, Visible: true, ChangesetID: 3, Timestamp: t0, Committed: &wc, Nodes: ns, Updates: ups}}
 		r.Members = append(r.Members, osm.Member{Type: osm.TypeWay, Ref: int64(id), Role: "outer"})
 	}
 	return osm.Relations{r}, d
@@ -549,6 +562,19 @@ func stressChild(spec string) {
 			}
 		}
 		fmt.Printf("H %x %d\n", sum[:7], oriented)
+		// the member ways stored in the datasource must still carry their update lists as they were
+		_, fresh := stressInput(n)
+		changed := 0
+		for id, ws := range d.ways {
+			a, _ := json.Marshal(ws[0].Updates)
+			b, _ := json.Marshal(fresh.ways[id][0].Updates)
+			if !bytes.Equal(a, b) {
+				changed++
+			}
+		}
+		if changed > 0 {
+			fmt.Printf("M %d\n", changed)
+		}
 	}
 }
 
@@ -572,6 +598,8 @@ func stressCase(w *wire.Writer, n, nruns int) *wire.Case {
 			}
 			hashes = append(hashes, h)
 			oriented = append(oriented, f[2])
+		case len(f) == 2 && f[0] == "M":
+			status = 7 // update lists of the stored member ways were changed by the call
 		case len(f) > 0 && f[0] == "E":
 			status = 8 // a run returned an error
 		}
@@ -591,12 +619,14 @@ func stressCase(w *wire.Writer, n, nruns int) *wire.Case {
 	switch {
 	case status == 9:
 		c.OracleFail = "the process annotating equal input repeatedly was aborted: " + abort
+	case status == 7:
+		c.OracleFail = "annotate.Relations changed the update lists of the member ways held by the datasource (no longer ordered by index, time, version)"
 	case status != 0:
 		c.OracleFail = "a run on a consistent input failed"
 	case !identical || len(hashes) != nruns:
 		c.OracleFail = "runs on equal input give different results"
 	}
-	c.Desc = map[string]interface{}{"stress": fmt.Sprintf("one multipolygon relation version with %d outer ring ways (closed squares, alternately clockwise / counter-clockwise; every way one version before the relation, no updates expected), annotate.Relations run %d times in a child process with GOMAXPROCS=8; every history lookup answers after 2 ms", n, nruns),
+	c.Desc = map[string]interface{}{"stress": fmt.Sprintf("one multipolygon relation version with %d outer ring ways (closed squares, alternately clockwise / counter-clockwise; every way one version before the relation and already annotated with 15 updates ordered by (index, time, version) that are not in time order across indexes, three of them in the same second; no updates expected for the relation; the stored ways' update lists must be unchanged afterwards), annotate.Relations run %d times in a child process with GOMAXPROCS=8; every history lookup answers after 2 ms", n, nruns),
 		"members": n, "runs": nruns, "status": status, "abort": abort, "runs_identical": identical, "members_with_orientation_per_run": oriented}
 	w.Count(fmt.Sprintf("stress:%d_members", n))
 	return c
